@@ -412,6 +412,10 @@ type zvfCExperiment struct {
 	PanB      bool   `json:"panB"`
 	ModeAtHold string `json:"mode"`
 	PatienceMs int    `json:"patience_ms"` // how long A's upstream request was left unanswered
+	Init       *zvfVState `json:"init,omitempty"`  // projected state before / after and both results: the pair is also
+	Final      *zvfVState `json:"final,omitempty"` // judged by the linearisation search (as a batch of two)
+	LabA       *zvfVLabel `json:"labA,omitempty"`
+	LabB       *zvfVLabel `json:"labB,omitempty"`
 }
 
 func zvfRunExperiment(a, b string, hold int, rnd *mrand.Rand) zvfCExperiment {
@@ -434,6 +438,7 @@ func zvfRunExperimentP(a, b string, hold int, rnd *mrand.Rand, patience time.Dur
 		}
 	}
 	e.ArgA, e.ArgB = zvfCArg(a, rnd), zvfCArg(b, rnd)
+	init := c.project()
 	c.g.arm(hold)
 	doneA, doneB := make(chan zvfVRes, 1), make(chan zvfVRes, 1)
 	go func() { doneA <- zvfCExecExt(c.zvfVInst, a, e.ArgA) }()
@@ -473,6 +478,10 @@ func zvfRunExperimentP(a, b string, hold int, rnd *mrand.Rand, patience time.Dur
 	}
 	e.PanA, e.PanB = ra.Pan, rb.Pan
 	e.Overlaps = c.mon.Overlaps()
+	fin := c.project()
+	e.Init, e.Final = &init, &fin
+	e.LabA = &zvfVLabel{Op: a, Arg: e.ArgA, F: zvfVFault{"none", "none"}, Res: *ra}
+	e.LabB = &zvfVLabel{Op: b, Arg: e.ArgB, F: zvfVFault{"none", "none"}, Res: *rb}
 	return e
 }
 
